@@ -116,4 +116,4 @@ def run(ctx):
                     r = 'range is non-empty by a dominating guard / inclusive range'
             ctx.ob(r is not None, '%s in %s %s' % (s.what[:70], short(v.path), ('— ' + r) if r else 'can panic for an accepted configuration'), 'nopanic|' + s.key(), loc=s.loc(),
                    detail=None if r else {'rng': 'a zero base period with uniform jitter makes the range 0..0 empty: rand panics', 'time-arith': 'Duration * 2 panics on overflow when the period is close to Duration::MAX'}.get(s.kind))
-    ctx.floor(n, 2, 'panic-capable sites in the back-off step')
+    ctx.floor(n, 1, 'panic-capable sites in the back-off step')
